@@ -751,6 +751,7 @@ def decision_tree(T, ifnode, epilogue_prefix=()):
         # walk a block: collect rescaling statements until a Return / nested If with returns
         pre = list(pre)
         env = {}
+        last_assign = {}
         for st in body:
             if isinstance(st, ast.Return):
                 idx = len(returns)
@@ -788,10 +789,17 @@ def decision_tree(T, ifnode, epilogue_prefix=()):
                     pre.append(('scal', ast.unparse(st.value.args[1]), st.value.args[0])); continue
                 if f == 'print': continue
             if isinstance(st, ast.For) and any(ast.unparse(x).startswith('misc.symm(') for x in ast.walk(st) if isinstance(x, ast.Call)):
+                # symmetrisation of the 's' blocks: record where the walk over the blocks starts and how it advances
+                steps = {ast.unparse(x.target): ast.unparse(x.value) for x in ast.walk(st) if isinstance(x, ast.AugAssign) and isinstance(x.op, ast.Add)}
                 for x in ast.walk(st):
-                    if isinstance(x, ast.Call) and ast.unparse(x.func) == 'misc.symm': pre.append(('symm', ast.unparse(x.args[0]), None))
+                    if isinstance(x, ast.Call) and ast.unparse(x.func) == 'misc.symm':
+                        off = ast.unparse(x.args[2]) if len(x.args) > 2 else ''
+                        how = 'order %s over %s from %s step %s' % (ast.unparse(x.args[1]) if len(x.args) > 1 else '?', ast.unparse(st.iter), last_assign.get(off, '?'), steps.get(off, '?'))
+                        pre.append(('symm', ast.unparse(x.args[0]), ast.parse(repr(how)).body[0].value))
                 continue
-            if isinstance(st, ast.Assign): continue        # ind = ..., ts = misc.max_step(...), y, z = None, None
+            if isinstance(st, ast.Assign):
+                if isinstance(st.targets[0], ast.Name): last_assign[st.targets[0].id] = ast.unparse(st.value)
+                continue        # ind = ..., ts = misc.max_step(...), y, z = None, None
             raise Untranslatable('statement before return: ' + ast.unparse(st)[:80])
         return 'Branch.continue_'
     def chain(i):
@@ -868,7 +876,7 @@ def gen_decide():
         rows = []
         for k, r in enumerate(returns):
             fields = llist('(%s, %s)' % (lstr(a), lstr(b)) for a, b in r['fields'].items())
-            epi = llist('(%s, %s, %s)' % (lstr(kind), lstr(v), lstr(ast.unparse(e)) if e is not None else lstr(''))
+            epi = llist('(%s, %s, %s)' % (lstr(kind), lstr(v), (lstr(e.value) if isinstance(e, ast.Constant) and isinstance(e.value, str) else lstr(ast.unparse(e))) if e is not None else lstr(''))
                         for kind, v, e in r['epilogue'])
             rows.append('  (%s, %s)' % (fields, epi))
         out.append('/-- for each `return`: the result dictionary (key, source expression) and the in-place rescalings that precede it -/')
@@ -890,6 +898,56 @@ def gen_decide():
         out.append('end %s\n' % name)
     out.append('end CvxVerif.Gen.Decide\n')
     write_if_changed(os.path.join(GEN, 'Decide.lean'), '\n'.join(out))
+    return []
+
+def gen_decide_nl():
+    """stopping test and result dictionary of cvxprog.cpl (the statistics block itself works on slices of s, z and on user callbacks
+    and is tied by recomputation in tools/corr/c04.py)"""
+    fn = find_func(load('cvxprog'), 'cpl')
+    loop = None
+    for n in fn.body:
+        if isinstance(n, ast.For) and isinstance(n.target, ast.Name) and n.target.id == 'iters': loop = n
+    if loop is None: raise Untranslatable('main loop of cpl not found')
+    decision = None
+    for st in loop.body:
+        if isinstance(st, ast.If) and any(isinstance(x, ast.Return) for x in ast.walk(st)) and \
+           any(isinstance(x, ast.Name) and x.id in ('FEASTOL', 'ABSTOL') for x in ast.walk(st.test)):
+            decision = st; break
+    if decision is None: raise Untranslatable('stopping test of cpl not found')
+    # relgap is the optional scalar of the statistics block: confirm it is assigned None somewhere before the test
+    opt = set()
+    for st in loop.body:
+        if st is decision: break
+        for x in ast.walk(st):
+            if isinstance(x, ast.Assign) and isinstance(x.value, ast.Constant) and x.value.value is None and isinstance(x.targets[0], ast.Name):
+                opt.add(x.targets[0].id)
+    D = StatT(); D.optional = set(opt); D.defined = set()
+    tree, returns = decision_tree(D, decision)
+    dfree = sorted(v for v in D.free if v not in ('iters',))
+    params = ['(%s : %s)' % (v, 'Nat' if v == 'MAXITERS' else ('Option K' if v in D.optional else 'K')) for v in dfree]
+    out = ['/- GENERATED by tools/translate/py2lean.py (gen_decide_nl) from /repo/src/python/cvxprog.py. Do not edit. -/',
+           'import CvxVerif.Model.LinAlgMachine', 'set_option linter.unusedVariables false',
+           'namespace CvxVerif.Gen.DecideNL', 'open CvxVerif.LAM', '', 'namespace cpl', 'section',
+           'variable {K : Type} [Field K] [LinearOrder K] [IsStrictOrderedRing K]',
+           'inductive Branch where | ret (k : Nat) | continue_', 'deriving DecidableEq, Repr',
+           '/-- the stopping test of the main loop of `cpl`; `ret k` = the k-th `return` of the block -/',
+           'def branch %s (iters : Nat) : Branch :=' % ' '.join(params), '  ' + tree,
+           'def branchParams : List String := ' + llist(map(lstr, dfree))]
+    rows = []
+    for k, r in enumerate(returns):
+        fields = llist('(%s, %s)' % (lstr(a), lstr(b)) for a, b in r['fields'].items())
+        epi = llist('(%s, %s, %s)' % (lstr(kind), lstr(v), (lstr(e.value) if isinstance(e, ast.Constant) and isinstance(e.value, str) else lstr(ast.unparse(e))) if e is not None else lstr('')) for kind, v, e in r['epilogue'])
+        rows.append('  (%s, %s)' % (fields, epi))
+    out.append('/-- for each `return`: the result dictionary (key, source expression) and the in-place operations that precede it -/')
+    out.append('def returns : List (List (String × String) × List (String × String × String)) := [\n' + ',\n'.join(rows) + ' ]')
+    # the local aliases used by the dictionary (sl, zl = s[mnl:], z[mnl:])
+    al = []
+    for st in ast.walk(decision):
+        if isinstance(st, ast.Assign) and isinstance(st.targets[0], ast.Tuple) and isinstance(st.value, ast.Tuple):
+            for a, b in zip(st.targets[0].elts, st.value.elts): al.append('(%s, %s)' % (lstr(ast.unparse(a)), lstr(ast.unparse(b))))
+    out.append('def aliases : List (String × String) := ' + llist(al))
+    out += ['end', 'end cpl', '', 'end CvxVerif.Gen.DecideNL', '']
+    write_if_changed(os.path.join(GEN, 'DecideNL.lean'), '\n'.join(out))
     return []
 
 if __name__ == '__main__':
